@@ -32,9 +32,14 @@ fIx == F("I(x)", "python", <<Read("I", "callable"), Read("x", "value")>>)
 fsum == F("x + z", "python", <<Read("x", "value"), Read("z", "value")>>)
 fq == F("q", "lookup", <<Read("q", "value")>>)
 fI == F("I", "lookup", <<Read("I", "value")>>)        \* a data column that happens to be named like a transform
+\* attribute access of depth two and a method call on a value: what is read is the object z
+fzt == F("z.T.T", "python", <<Read("z", "value")>>)
+fzc == F("z.T.copy()", "python", <<Read("z", "value")>>)
 \* formulas: sequences of terms, a term = sequence of factors (no intercept: 0 + ...)
-Formulas == << <<<<fx>>>>, <<<<fx>>, <<fz>>>>, <<<<fIx>>>>, <<<<fsum>>>>, <<<<fx>>, <<fz, fx>>>>, <<<<fIx>>, <<fz>>>>, <<<<fq>>, <<fq, fx>>>>, <<<<fI>>, <<fx>>>> >>
-FormulaText == << "0 + x", "0 + x + z", "0 + I(x)", "0 + {x + z}", "0 + x + z:x", "0 + I(x) + z", "0 + `x y` + `x y`:x", "0 + I + x" >>
+Formulas == << <<<<fx>>>>, <<<<fx>>, <<fz>>>>, <<<<fIx>>>>, <<<<fsum>>>>, <<<<fx>>, <<fz, fx>>>>, <<<<fIx>>, <<fz>>>>, <<<<fq>>, <<fq, fx>>>>, <<<<fI>>, <<fx>>>>,
+              <<<<fzt>>, <<fx>>>>, <<<<fzc>>>> >>
+FormulaText == << "0 + x", "0 + x + z", "0 + I(x)", "0 + {x + z}", "0 + x + z:x", "0 + I(x) + z", "0 + `x y` + `x y`:x", "0 + I + x",
+                 "0 + {z.T.T} + x", "0 + {z.T.copy()}" >>
 
 RECURSIVE FlatE(_, _)
 FlatE(G(_), s) == IF s = <<>> THEN <<>> ELSE G(Head(s)) \o FlatE(G, Tail(s))
@@ -59,6 +64,7 @@ FactorVal(pat, f) ==
     [] f.e = "q" -> ValueOf(pat, "q")
     [] f.e = "I" -> ValueOf(pat, "I")
     [] f.e = "I(x)" -> ApplyI(pat, ValueOf(pat, "x"))
+    [] f.e \in {"z.T.T", "z.T.copy()"} -> ValueOf(pat, "z")
     [] f.e = "x + z" -> [i \in 1..3 |-> ValueOf(pat, "x")[i] + ValueOf(pat, "z")[i]]
 RECURSIVE TermVal(_, _)
 TermVal(pat, t) == IF t = <<>> THEN <<1, 1, 1>> ELSE LET h == FactorVal(pat, Head(t)) r == TermVal(pat, Tail(t)) IN [i \in 1..3 |-> h[i] * r[i]]
@@ -68,6 +74,8 @@ Columns(pat, form) == [t \in DOMAIN form |-> [name |-> JoinE(form[t]), vals |-> 
 
 \* ModelSpec.variables_by_source after materialization: every name read, with the layer its value came from
 Sources(pat, form) == [n \in {ReadsOf(form)[i].name : i \in DOMAIN ReadsOf(form)} |-> Layer(pat, n)]
+\* the name reported for a layer: a context supplied as a named LayeredMapping is reported with its own name appended
+SourceName(l, cform) == IF l = "context" /\ cform = "lm-named" THEN "context:user" ELSE l
 RequiredAfter(pat, form) == {n \in DOMAIN Sources(pat, form) : Sources(pat, form)[n] = "data"}
 
 (* laws *)
